@@ -379,4 +379,5 @@ int __wrap_pthread_once(pthread_once_t *ctl_, void (*fn)(void))
 /* ------------------------------------------------------------------ zygote */
 extern void p_libsys_init(void);
 void mc_harness_zygote(void) __attribute__((weak));
-void mcrt_zygote_init(void) { p_libsys_init(); if (mc_harness_zygote) mc_harness_zygote(); }
+void mc_harness_preinit(void) __attribute__((weak));       /* what the application did before it initialised the library (e.g. installed signal handlers) */
+void mcrt_zygote_init(void) { if (mc_harness_preinit) mc_harness_preinit(); p_libsys_init(); if (mc_harness_zygote) mc_harness_zygote(); }
